@@ -34,54 +34,50 @@ structure ScanOut where
 def ScanOut.append (a b : ScanOut) : ScanOut :=
   ⟨a.toks ++ b.toks, a.errs ++ b.errs, a.fuelOut || b.fuelOut⟩
 
-mutual
-/-- the tokens of file `fname` (already lexed into `ts`), with its includes spliced in;
-    `active` = files currently being included (the scanner stack), `fname` among them -/
-def scanToks (files : Files) (depth : Nat) (active : List Bytes) (fname : Bytes) :
-    List RawTok → ScanOut
+/-- the tokens of file `fname` (already lexed into the list), with its includes spliced in by
+    `sub active name content`; `active` = files currently being included (the scanner stack),
+    `fname` among them.  Structural recursion over the token list. -/
+def scanToksWith (sub : List Bytes → Bytes → Bytes → ScanOut) (files : Files) (active : List Bytes)
+    (fname : Bytes) : List RawTok → ScanOut
   | [] => ⟨[], [], false⟩
-  | t :: rest =>
+  | [t] =>
     if t.kind = Tok.INCLUDE then
-      match rest with
-      | [] =>
-        -- end of file after `include`: the stale INCLUDE token supplies the line
-        ⟨[], [⟨PErrT.EXPECTED_FILENAME, fname, t.line, []⟩], false⟩
-      | n :: rest' =>
-        if n.kind ≠ Tok.FNAME then
-          -- the offending token is dropped
-          (ScanOut.mk [] [⟨PErrT.EXPECTED_FILENAME, fname, n.line, []⟩] false).append
-            (scanToks files depth active fname rest')
-        else
-          let nfn := unquote n.text
-          match files.get? nfn with
-          | none =>
-            (ScanOut.mk [] [⟨PErrT.FILE_NOT_FOUND, fname, n.line, nfn⟩] false).append
-              (scanToks files depth active fname rest')
-          | some content =>
-            if active.contains nfn then
-              (ScanOut.mk [] [⟨PErrT.RECURSIVE_INCLUDE, fname, n.line, []⟩] false).append
-                (scanToks files depth active fname rest')
-            else
-              (scanFile files depth active nfn content).append
-                (scanToks files depth active fname rest')
+      -- end of file after `include`: the stale INCLUDE token supplies the line
+      ⟨[], [⟨PErrT.EXPECTED_FILENAME, fname, t.line, []⟩], false⟩
+    else ⟨[⟨t.kind, t.text, fname, t.line⟩], [], false⟩
+  | t :: n :: rest' =>
+    if t.kind = Tok.INCLUDE then
+      if n.kind ≠ Tok.FNAME then
+        -- the offending token is dropped
+        (ScanOut.mk [] [⟨PErrT.EXPECTED_FILENAME, fname, n.line, []⟩] false).append
+          (scanToksWith sub files active fname rest')
+      else
+        let nfn := unquote n.text
+        (match files.get? nfn with
+         | none => ScanOut.mk [] [⟨PErrT.FILE_NOT_FOUND, fname, n.line, nfn⟩] false
+         | some content =>
+           if active.contains nfn then ScanOut.mk [] [⟨PErrT.RECURSIVE_INCLUDE, fname, n.line, []⟩] false
+           else sub active nfn content).append
+          (scanToksWith sub files active fname rest')
     else
       (ScanOut.mk [⟨t.kind, t.text, fname, t.line⟩] [] false).append
-        (scanToks files depth active fname rest)
-termination_by ts => (depth, ts.length + 1)
+        (scanToksWith sub files active fname (n :: rest'))
 
-/-- push a scanner for `fname` -/
-def scanFile (files : Files) (depth : Nat) (active : List Bytes) (fname content : Bytes) : ScanOut :=
-  match depth with
-  | 0 => ⟨[], [], true⟩
-  | d + 1 => scanToks files d (fname :: active) fname (lexBuffer content)
-termination_by (depth, 0)
-end
+/-- push a scanner for `fname`; `depth` bounds the nesting of includes (structural recursion) -/
+def scanFile : Nat → Files → List Bytes → Bytes → Bytes → ScanOut
+  | 0, _, _, _, _ => ⟨[], [], true⟩
+  | d + 1, files, active, fname, content =>
+    scanToksWith (fun act n c => scanFile d files act n c) files (fname :: active) fname (lexBuffer content)
+
+/-- the tokens of a file being scanned with `d` levels of nesting still available -/
+def scanToks (files : Files) (d : Nat) (active : List Bytes) (fname : Bytes) (ts : List RawTok) : ScanOut :=
+  scanToksWith (fun act n c => scanFile d files act n c) files active fname ts
 
 /-- `Theo::scan` (with the F3 repair: an empty scan still yields one EOF token) -/
 def scan (files : Files) (main : Bytes) : ScanOut :=
   let body : ScanOut :=
     match files.get? main with
-    | some content => scanFile files (files.length + 1) [] main content
+    | some content => scanFile (files.length + 1) files [] main content
     | none => ⟨[], [⟨PErrT.MAIN_FILE_NOT_FOUND, bDash, -1, main⟩], false⟩
   let eof : Token :=
     match body.toks.getLast? with
